@@ -1,4 +1,5 @@
 import CelmaVerif.Lemmas.HandlerSafe
+import CelmaVerif.Lemmas.IterCur
 import CelmaVerif.Lemmas.ArgStringMem
 import CelmaVerif.Generated.HandlerAlloc
 /-
@@ -29,20 +30,87 @@ theorem C04_cursor_step (it : It) (flag : Bool) (h : it.Inv) (hne : it.atEnd = f
     `totalChars argv` steps -/
 theorem C04_cursor_terminates (it : It) : it.measure < totalChars it.argv := measure_lt_total it
 
-/-- Evaluation by a handler: for every configuration of the modelled fragment, every handler state,
-    every content of the argument file, every value of the environment variable and every argument
-    vector with a program name, `evalArguments` performs no access outside argv or a word, never
-    exhausts a loop bound (terminates), and ends with a normal return or an exception of a class
-    derived from std::exception. -/
+/-- Evaluation by a handler (MODELLED FRAGMENT — the statement is about `Model/ProgArgs/Handler.lean`):
+    for every configuration of the fragment, every handler state, every content of the argument
+    file, every value of the environment variable and every argument vector with a program name
+    (`argc ≥ 1`; for `argc = 0` see `C04_argc0_reads_before_argv`), `evalArguments` performs no access
+    outside argv or a word, never exhausts a loop bound (terminates), and ends with a normal return
+    or an exception of a class derived from std::exception.
+    In the fragment: destinations bool, int, std::string, LevelCounter, std::vector<int> (also
+    multi-value); value modes none/optional/required; checks lower/upper/range/values/minLength/
+    maxLength/pattern; cardinalities; constraints requires/excludes, all-of/any-of/one-of, differ/
+    disjoint; handler flags: abbreviations on/off, argument file, environment variable.
+    NOT in the fragment (no statement here, covered only by the sanitised correspondence runs as far
+    as the generators reach them): sub-groups, bracket handlers, inversion support, value mode
+    `command` (the only caller of `isSingleArg()`/`argsAsString()`: their reads are
+    `C04_single_arg_read`, `C04_args_as_string_*` below, on the cursor alone), callables, formats,
+    usage/help flags, other destination types.
+    What "safe" can mean here: reads of argv are checked (`getWord`/`getChar`/`getSuffix` answer `oob`
+    outside argv, the theorem says they never do); the handler-internal tables (`args.getD i default`,
+    `cfg.args[i]?`, `List.set`) are total by construction and can never answer `oob` — for them the
+    theorem says nothing, and the clauses "no use after free, no double deallocation, no null
+    dereference" of the property have NO theorem: they rest on the ASan/UBSan verdict of the runs. -/
 theorem C04_eval_safe (cfg : Cfg) (h : HState) (src : Sources) (argv : List Word) (hargc : 1 ≤ argv.length) :
     Safe (evalArguments cfg h src argv) :=      -- Safe r: r is `ok _`, or `throw e` with `stdExc e`; never `oob`
   evalArguments_safe cfg h src argv hargc
 
-/-- the same for evaluation through an argument group -/
+/-- the same for evaluation through an argument group (argv only: `Groups::evalArguments` has no
+    argument-file or environment source of its own — `Groups::getArgHandler` creates the member
+    handlers, and the sources are a matter of `Handler::evalArguments`, which a group never calls) -/
 theorem C04_groups_eval_safe (cfg : Cfg) (inits : List DVal) (argMember globMember order : List Nat)
     (argv : List Word) (hargc : 1 ≤ argv.length) :
     Safe (groupsEval cfg inits argMember globMember order argv) :=
   groupsEval_safe cfg inits argMember globMember order argv hargc
+
+/-! ### the current element: `isSingleArg()`, `argsAsString()` -/
+
+/-- The invariant of the current element (`It.CurInv`: before the end the element is set; its word
+    index `i` satisfies `0 ≤ i < argc`; a single-character element `argv[i][p]` has `1 ≤ p < strlen`
+    and the cursor stands right behind it) holds after `begin()` and after every `operator++` from a
+    valid cursor, also on the copy flagged "rest of the word is the value". -/
+theorem C04_cursor_current_element (argv : List Word) (it : It) (flag : Bool) (h : it.Inv) :
+    CurPost (It.begin argv) ∧ CurPost (({ it with remAsValue := flag } : It).step) :=
+  -- CurPost r: if r = ok it' then it'.CurInv
+  ⟨begin_cur argv, step_flag_cur it flag h⟩
+
+/-- `isSingleArg()` reads `mpArgV[ mCurrElement.mArgIndex][ 2]` only for a single-character element
+    at position 1, i.e. inside a word of at least two characters (`[2]` is at most the NUL): never
+    outside.  The element's index is a natural number there, so the model's `Int.toNat` is exact.
+    For NUL-free words it answers `true` exactly for a two-character word `-c`, and then the cursor
+    stands at the next word. -/
+theorem C04_single_arg_read (it : It) (hC : it.CurInv) :
+    (∃ b, it.isSingleArg = .ok b) ∧
+    ((∀ w ∈ it.argv, '\x00' ∉ w) → it.isSingleArg = .ok true →
+      ∃ (i : Nat) (w : Word), it.cur.argIndex = (i : Int) ∧ it.argv[i]? = some w ∧ w.length = 2 ∧
+        it.argIndex = i + 1) :=
+  ⟨isSingleArg_safe it hC, fun hn e => isSingleArg_true it hC hn e⟩
+
+/-- `argsAsString( true)` (positional value, value mode `command`) on a cursor before the end reads
+    `argv[i]`, …, `argv[argc-1]` for the element's own index `0 ≤ i < argc`, and returns these words
+    joined by blanks -/
+theorem C04_args_as_string_self (it : It) (hC : it.CurInv) (hne : it.cur.ty ≠ .invalid) :
+    ∃ (i : Nat) (w : Word), it.cur.argIndex = (i : Int) ∧ it.argv[i]? = some w ∧
+      it.argsAsString true = .ok (w ++ ((it.argv.drop (i + 1)).map (fun w => ' ' :: w)).flatten) :=
+  argsAsString_self_safe it hC hne
+
+/-- `argsAsString( false)` (key with value mode `command`) never reads outside argv: it throws
+    `argument_error` unless the element is a `-c` word, and otherwise returns the words that follow —
+    none when `-c` is the last word -/
+theorem C04_args_as_string_rest (it : It) (hC : it.CurInv) :
+    it.argsAsString false = .throw .runtime_error ∨ ∃ s, it.argsAsString false = .ok s :=
+  argsAsString_rest_safe it hC
+
+/-- what the pinned code did there (repaired by `fix:` "argsAsString( false) on the last argument …"):
+    for a `-c` element that is the last word it indexed `argv[argc]`, the terminating null pointer,
+    and built a `std::string` from it -/
+theorem C04_args_as_string_head_last (it : It) (hb : it.isSingleArg = .ok true)
+    (hlast : it.argIndex = it.argv.length) : ∃ s, it.argsAsStringHead false = .oob s :=
+  argsAsStringHead_last it hb hlast
+
+/-- `argc = 0` is OUTSIDE every theorem above, and the code is not safe there: the iterator
+    constructor evaluates `::strlen( mpArgV[ mArgC - 1])`, i.e. reads `argv[-1]` (the model answers
+    `oob`).  Not exercised by the harness (the sanitizer would end the process); see the design note. -/
+theorem C04_argc0_reads_before_argv : ∃ s, It.begin [] = .oob s := ⟨_, rfl⟩
 
 /-- Key specifications (typed long keys go through the `ArgumentKey` string constructor): for every
     string the constructor returns a key or throws std::invalid_argument; it never reads outside the
@@ -90,6 +158,16 @@ theorem C04_progname_copy_head_overflows (arg0 : List Byte) : ¬ ∃ b, copyProg
 example : (It.begin ["prog".toList, "-fa5".toList, "--".toList, "-x".toList]).isOk = true := by decide
 example : (match It.begin ["p".toList, "--alpha=7".toList] with
     | .ok it => it.atEnd == false && it.cur.str == "alpha".toList
+    | _ => false) = true := by decide
+/-- a cursor on the last word `-c`: the pinned `argsAsString( false)` leaves argv, the repaired one
+    returns the empty string; `-c x`: both return `x` -/
+example : (match It.begin [['p'], ['-', 'c']] with
+    | .ok it => it.isSingleArg.isOk && (it.argsAsStringHead false).isOob && (it.argsAsString false).isOk
+    | _ => false) = true := by decide
+example : (match It.begin [['p'], ['-', 'c'], ['x']] with
+    | .ok it => (match it.argsAsString false, it.argsAsString true with
+        | .ok a, .ok b => a == ['x'] && b == ['-', 'c', ' ', 'x']
+        | _, _ => false)
     | _ => false) = true := by decide
 example : (evalArguments { args := [{ key := ⟨some 'a', "alpha".toList⟩, kind := .int, vmode := .required, card := .max 1 }] }
     { args := [{ dest := .int 0 }], pending := [], globals := [] } {} ["p".toList, "--alpha=7".toList]).isOk = true := by
